@@ -228,6 +228,13 @@ func Load(repo string, cfg BuildConfig) (*Program, error) {
 			}
 		}
 	}
+	neverNilCall = func(v ssa.Value) bool {
+		in, ok := v.(ssa.Instruction)
+		if !ok || in.Block() == nil {
+			return false
+		}
+		return p.errNeverNil(v, in.Block(), nil, 0)
+	}
 	sort.Slice(p.modFuncs, func(i, j int) bool { return p.modFuncs[i].String() < p.modFuncs[j].String() })
 	p.NSSAFuncs = len(p.modFuncs)
 	if p.NSSAFuncs < 400 {
